@@ -8,7 +8,7 @@ use std::{
 	iter::once,
 	process::{ExitCode, Stdio},
 	sync::{
-		atomic::{AtomicBool, AtomicU8, Ordering},
+		atomic::{AtomicU8, Ordering},
 		Arc,
 	},
 	time::Duration,
@@ -179,7 +179,8 @@ pub fn make_config(args: &Args, state: &State) -> Result<Config> {
 			.collect(),
 	);
 
-	let queued = Arc::new(AtomicBool::new(false));
+	// which run (identified by its start instant) a queued follow-up start is already waiting for
+	let queued = Arc::new(std::sync::Mutex::new(None::<std::time::Instant>));
 	let quit_again = Arc::new(AtomicU8::new(0));
 
 	config.on_action_async(move |mut action| {
@@ -397,6 +398,10 @@ pub fn make_config(args: &Args, state: &State) -> Result<Config> {
 					move |context| {
 						let job = job.clone();
 						let is_running = matches!(context.current, CommandState::Running { .. });
+						let running_since = match context.current {
+							CommandState::Running { started, .. } => Some(*started),
+							_ => None,
+						};
 						Box::new(async move {
 							let innerjob = job.clone();
 							if is_running {
@@ -437,10 +442,18 @@ pub fn make_config(args: &Args, state: &State) -> Result<Config> {
 									}
 									OnBusyUpdate::Queue => {
 										let job = job.clone();
-										let already_queued =
-											queued.fetch_or(true, Ordering::SeqCst);
+										let already_queued = {
+											let mut queued_for =
+												queued.lock().unwrap_or_else(|e| e.into_inner());
+											if *queued_for == running_since {
+												true
+											} else {
+												*queued_for = running_since;
+												false
+											}
+										};
 										if already_queued {
-											debug!("next start is already queued, do nothing");
+											debug!("next start is already queued behind this run, do nothing");
 										} else {
 											debug!("queueing next start of job");
 											tokio::spawn({
@@ -457,10 +470,13 @@ pub fn make_config(args: &Args, state: &State) -> Result<Config> {
 															context.command.clone(),
 															outflags,
 														);
-													})
-													.await;
-													trace!("resetting queued state");
-													queued.store(false, Ordering::SeqCst);
+													});
+													trace!("resetting queued state if it is still ours");
+													let mut queued_for =
+														queued.lock().unwrap_or_else(|e| e.into_inner());
+													if *queued_for == running_since {
+														*queued_for = None;
+													}
 												}
 											});
 										}
